@@ -251,6 +251,7 @@ LAT_CONFIGS = {
             ('ring8-convex-bounds', q(**{**REG, 'V_REGION_HI': 4})),
             ('line5-allworlds', q(V_TOPO='line', V_N=5, V_MAXD=2, V_RAD2=5, V_LVS=1, V_BIAS='p', V_MAXT=2, V_MAXCALLS=2, V_WORLDS='all')),
             ('ring6-rewire', q(V_TOPO='ring', V_N=6, V_MAXD=2, V_RAD2=3, V_LVS=1, V_BIAS='0', V_MAXT=3, V_MAXCALLS=2, V_WORLDS='few', V_PROBLEMS='one')),
+            ('line5-api', q(V_TOPO='line', V_N=5, V_MAXD=2, V_RAD2=5, V_LVS=1, V_BIAS='1', V_MAXT=1, V_MAXCALLS=4, V_WORLDS='free', V_PROBLEMS='one')),
         ],
         'thorough': [
             ('line5-deep', q(V_TOPO='line', V_N=5, V_MAXD=2, V_RAD2=5, V_LVS=1, V_BIAS='p', V_MAXT=3, V_MAXCALLS=2, V_WORLDS='all')),
@@ -265,6 +266,7 @@ LAT_CONFIGS = {
             ('ring8-convex-bounds', q(**{**REG, 'V_REGION_HI': 4})),
             ('line5-allworlds', q(V_TOPO='line', V_N=5, V_MAXD=2, V_LVS=1, V_BIAS='p', V_MAXT=2, V_MAXCALLS=2, V_WORLDS='all')),
             ('ring6-few', q(V_TOPO='ring', V_N=6, V_MAXD=1, V_LVS=1, V_BIAS='0', V_MAXT=3, V_MAXCALLS=2, V_WORLDS='few', V_PROBLEMS='one')),
+            ('line5-api', q(V_TOPO='line', V_N=5, V_MAXD=2, V_LVS=1, V_BIAS='1', V_MAXT=1, V_MAXCALLS=4, V_WORLDS='free', V_PROBLEMS='one')),
         ],
         'thorough': [
             ('line7-allworlds', q(V_TOPO='line', V_N=7, V_MAXD=2, V_LVS=1, V_BIAS='p', V_MAXT=3, V_MAXCALLS=2, V_WORLDS='all', V_PROBLEMS='one')),
@@ -606,13 +608,14 @@ ALL4 = TREE + ['lat:prm']
 API4 = ['api:rrt', 'api:rrtstar', 'api:rrtc', 'api:prm']
 
 REAL = ['real']
+APIT = ['api:rrt', 'api:rrtstar', 'api:rrtc']
 PROPS = {
-    'C01': {'prefixes': ['C01/'], 'engines': ALL4 + REAL, 'level': 'model_checking'},
-    'C02': {'prefixes': ['C02/'], 'engines': ALL4 + REAL, 'level': 'model_checking'},
-    'C03': {'prefixes': ['C03/'], 'engines': ALL4 + REAL, 'level': 'model_checking'},
+    'C01': {'prefixes': ['C01/'], 'engines': ALL4 + API4 + REAL, 'level': 'model_checking'},
+    'C02': {'prefixes': ['C02/'], 'engines': ALL4 + API4 + REAL, 'level': 'model_checking'},
+    'C03': {'prefixes': ['C03/'], 'engines': ALL4 + API4 + REAL, 'level': 'model_checking'},
     'C04': {'prefixes': ['C04/'], 'engines': TREE + REAL, 'level': 'model_checking'},
-    'C05': {'prefixes': ['C05/'], 'engines': ALL4 + REAL, 'level': 'model_checking'},
-    'C06': {'prefixes': ['C06/'], 'engines': ALL4 + REAL, 'level': 'model_checking'},
+    'C05': {'prefixes': ['C05/'], 'engines': ALL4 + API4 + REAL, 'level': 'model_checking'},
+    'C06': {'prefixes': ['C06/'], 'engines': ALL4 + API4 + REAL, 'level': 'model_checking'},
     'C07': {'prefixes': ['C07/'], 'engines': ALL4 + API4 + REAL, 'level': 'model_checking'},
     'C08': {'prefixes': ['C08/'], 'engines': API4 + ALL4 + REAL, 'level': 'fault_enumeration'},
     'C09': {'prefixes': ['C09/'], 'engines': ['spaces'], 'level': 'model_checking'},
@@ -621,12 +624,12 @@ PROPS = {
     'C12': {'prefixes': ['C12/'], 'engines': ['spaces'], 'level': 'model_checking'},
     'C13': {'prefixes': ['C13/'], 'engines': ['spaces'], 'level': 'model_checking'},
     'C14': {'prefixes': ['C14/'], 'engines': ['spaces'], 'level': 'other'},
-    'C15': {'prefixes': ['C15/'], 'engines': TREE + REAL, 'level': 'model_checking'},
+    'C15': {'prefixes': ['C15/'], 'engines': TREE + APIT + REAL, 'level': 'model_checking'},
     'C19': {'prefixes': ['C19/'], 'engines': ['py'], 'level': 'translation_validation'},
     'C20': {'prefixes': ['C20/'], 'engines': ['py'], 'level': 'fault_enumeration'},
-    'C16': {'prefixes': ['C16/'], 'engines': TREE + REAL, 'level': 'model_checking'},
-    'C17': {'prefixes': ['C17/'], 'engines': ['lat:rrtstar'] + REAL, 'level': 'model_checking'},
-    'C18': {'prefixes': ['C18/'], 'engines': ['lat:prm'] + REAL, 'level': 'model_checking'},
+    'C16': {'prefixes': ['C16/'], 'engines': TREE + APIT + REAL, 'level': 'model_checking'},
+    'C17': {'prefixes': ['C17/'], 'engines': ['lat:rrtstar', 'api:rrtstar'] + REAL, 'level': 'model_checking'},
+    'C18': {'prefixes': ['C18/'], 'engines': ['lat:prm', 'api:prm'] + REAL, 'level': 'model_checking'},
 }
 
 
